@@ -219,6 +219,23 @@ Definition run (fn : str) (args : list str) : str :=
             | None => s2l "-" end
         | Err _ => s2l "ERR" | Fuel => s2l "FUEL" end
     | _ => s2l "?" end
+  else if str_eqb fn (s2l "rm_assign") then
+    (* args: code, index of an assignment whose value is a call or array literal: rm_target's removal *)
+    match args with
+    | [code; idx] =>
+        match parse code with
+        | Ok b =>
+            match nth_line (nat_of idx) b with
+            | Some (NAssign name _ v) =>
+                match node_edit v with
+                | Some e =>
+                    let offs := line_offsets code in
+                    79 :: rm_assign code (pos_offset offs (N.to_nat (tline name)) (N.to_nat (tcol name)))
+                                    (pos_offset offs (e_sl e) (e_sc e)) (pos_offset offs (e_el e) (e_ec e))
+                | None => s2l "-" end
+            | _ => s2l "-" end
+        | Err _ => s2l "ERR" | Fuel => s2l "FUEL" end
+    | _ => s2l "?" end
   else if str_eqb fn (s2l "add_src") then
     (* args: old members separated by code point 2, new files separated by 2 (unsorted result) *)
     match args with
